@@ -266,6 +266,16 @@ impl GossipNodeState {
     }
 }
 
+/// Total order on health used only to break exact (incarnation, timestamp) ties in `merge`.
+const fn health_tie_rank(health: NodeHealth) -> u8 {
+    match health {
+        NodeHealth::Healthy => 0,
+        NodeHealth::Unknown => 1,
+        NodeHealth::Degraded => 2,
+        NodeHealth::Failed => 3,
+    }
+}
+
 /// Gossip protocol messages.
 #[derive(Debug, Clone, Serialize, Deserialize, PartialEq, Eq)]
 pub enum GossipMessage {
@@ -366,7 +376,12 @@ impl LWWMembershipState {
 
         for state in incoming {
             let should_update = self.states.get(&state.node_id).map_or(true, |existing| {
-                let supersedes = state.supersedes(existing);
+                // Exact (incarnation, timestamp) ties are broken by health severity so that
+                // replicas converge whatever the arrival order of the tied updates.
+                let supersedes = state.supersedes(existing)
+                    || (state.incarnation == existing.incarnation
+                        && state.timestamp == existing.timestamp
+                        && health_tie_rank(state.health) > health_tie_rank(existing.health));
                 if supersedes {
                     tracing::debug!(
                         node_id = %state.node_id,
